@@ -792,7 +792,42 @@ class Emitter:
                  f"theorem {lean_name}.elim {imp} {{t : Nat}} {{cl : Call R}}\n"
                  f"    (h : {lean_name} {fargs} = .call t cl) (P : Nat → Call R → Prop){hyps} : P t cl := by\n"
                  f"  unfold {lean_name} at h\n{proof}\n")
+        # the same for rejections by assertion: which assertion fired
+        if not recs:
+            self.counter = 0
+            self.pre = []
+            proof2 = self.elim_assert_proof(tree, [], "  ")
+            a0 = [l for l in sorted(real, key=lambda l: l.ordinal) if l.kind == "assert0"]
+            hyps2 = "".join(f"\n    (hp{n} : ({c}) → P)" for n, c in enumerate(self.pre))
+            hyps2 += "".join(f"\n    (ha{l.ordinal} : {lean_name}.guard_{l.ordinal} {gargs} → P)" for l in a0)
+            if self.pre or a0:
+              o.append(f"/-- which assertion fired when `{lean_name}` aborts (generated, checked by Lean) -/\n"
+                     f"theorem {lean_name}.elimAssert {imp} {{t : Nat}}\n"
+                     f"    (h : {lean_name} {fargs} = .assertFail t) (P : Prop){hyps2} : P := by\n"
+                     f"  unfold {lean_name} at h\n{proof2}\n")
         return real
+
+    def elim_assert_proof(self, t, hs, ind):
+        if t[0] == "TXT":
+            if t[1].startswith(".assertFail"):
+                return f"{ind}exact hp{len(self.pre) - 1} {self.lastc}"
+            return f"{ind}cases h"
+        if t[0] == "IF":
+            self.counter += 1
+            hn = f"c{self.counter}"
+            is_pre = t[1].startswith("¬ nd = true ∧")
+            is_nd = t[1] == "nd = true"
+            if is_pre:
+                self.pre.append(t[1])
+                self.lastc = hn
+            a = self.elim_assert_proof(t[2], hs if (is_pre or is_nd) else hs + [hn], ind + "  ")
+            b = self.elim_assert_proof(t[3], hs if (is_pre or is_nd) else hs + [hn], ind + "  ")
+            return (f"{ind}by_cases {hn} : {t[1]}\n{ind}· rw [if_pos {hn}] at h\n{a}\n{ind}· rw [if_neg {hn}] at h\n{b}")
+        lf = t[1]
+        if lf.kind == "assert0":
+            g = "⟨" + ", ".join(hs) + "⟩" if len(hs) > 1 else (hs[0] if hs else "trivial")
+            return f"{ind}exact ha{lf.ordinal} {g}"
+        return f"{ind}cases h"
 
     def elim_proof(self, t, hs, ind, recs):
         """structured proof following the decision tree; hs = names of the hypotheses that make up the guard so far"""
